@@ -799,7 +799,21 @@ func runC17(p *an.Prog, r *an.Run, tier string) {
 			li := an.Locksets(m, nil)
 			for _, c := range an.Calls(m, false) {
 				f := an.CallObj(c)
-				if f == nil || an.RecvNamed(f) == nil || an.RecvNamed(f).Obj().Name() != "Conn" || an.RecvNamed(f).Obj().Pkg().Path() != "github.com/gorilla/websocket" {
+				if f == nil {
+					continue
+				}
+				onConn := an.RecvNamed(f) != nil && an.RecvNamed(f).Obj().Name() == "Conn" && an.RecvNamed(f).Obj().Pkg() != nil && an.RecvNamed(f).Obj().Pkg().Path() == "github.com/gorilla/websocket"
+				if !onConn && c.Common().IsInvoke() && len(m.Params) > 0 {
+					// the connection held behind a small interface: a method invoked on a value loaded from a field of
+					// the codec itself
+					v := c.Common().Value
+					if u, ok := v.(*ssa.UnOp); ok && u.Op == token.MUL {
+						if root, path := an.RootPath(u.X); root == ssa.Value(m.Params[0]) && path != "" {
+							onConn = true
+						}
+					}
+				}
+				if !onConn {
 					continue
 				}
 				var need an.LockKey
@@ -888,7 +902,7 @@ func runC17(p *an.Prog, r *an.Run, tier string) {
 		if nf != nil {
 			var dc ssa.CallInstruction
 			for _, c := range an.Calls(rm, false) {
-				if f := an.CallObj(c); f != nil && f.Name() == "Discard" && an.RecvNamed(f) != nil && an.RecvNamed(f).Obj().Name() == "Reader" {
+				if f := an.CallObj(c); f != nil && f.Name() == "Discard" && an.RecvNamed(f) != nil && (an.RecvNamed(f).Obj().Name() == "Reader" || c.Common().IsInvoke()) {
 					dc = c
 				}
 			}
